@@ -1,26 +1,60 @@
+"""C15 - one centred template and size per distinct residue; user values win."""
 from gen import jobgen
 from checks import _world_a as wa
 
 PROP = "C15"
 LEVEL = "exploration"
-RULE = "tbd"
-ASSUMPTIONS = wa.ASSUMPTIONS
+RULE = ("seeded gen_coords runs over topologies in which equal residue names have different content in different "
+        "molecule types, atom names are permuted between otherwise identical residues, rings/branches/virtual sites "
+        "(virtual_sitesn COG, virtual_sites2, virtual_sites3) occur, and build files give [template]/[volumes] for some "
+        "residue names; the optimiser verdict is forced to 'failed' 0..14 times in a row from the decision tape (retry loop "
+        "and fall-through); oracle on the captured topology: grouping by labelled-graph isomorphism, key sets, zero centre, "
+        "virtual-site constructions, tolerances unless a failed-to-optimise warning was logged, user templates/sizes "
+        "unchanged and not optimised, sizes > 0; non-trivial = >= 2 templates or an optimiser fault fired; "
+        "distinct = distinct event-log digests")
+ASSUMPTIONS = wa.ASSUMPTIONS + ["atom names are unique inside a generated residue, so labelled-graph isomorphism is decided by "
+                                "comparing (names, name-labelled edges); virtual-site kinds generated: virtual_sitesn funct 1, "
+                                "virtual_sites2, virtual_sites3 funct 1"]
 REAL_VS_STUB = wa.REAL_VS_STUB
-PROBES = wa.PROBES
-PROFILE = {}
+PROBES = wa.PROBES + ["optimisation_fall_through", "user_template", "user_volume", "resname_clash"]
+PROFILE = {"n_restypes": (2, 3), "n_moltypes": (2, 3), "max_atoms": 4, "faults": ["opt", "opt", "step"],
+           "max_molecules": 5, "maxres": 5, "box_modes": ["cubic"], "n_entries": (2, 3)}
 
 
 def n_runs(tier):
-    return 400 if tier == "quick" else 40000
+    return 300 if tier == "quick" else 20000
 
 
 def gen_job(verif_seed, tier, index):
     job, st = jobgen.base_job(PROP, verif_seed, tier, index, PROFILE)
+    g = st.gen
+    t = st.tape
+    if g.random() < 0.35:
+        jobgen.add_resname_clash(job, g)
+    if g.random() < 0.35:
+        jobgen.add_user_templates(job, g)
+    if g.random() < 0.5:
+        # streaks of failed verdicts: retry loop (<= 11 in a row) and fall-through (>= 12)
+        lane = []
+        for _ in range(t.randint(1, 4)):
+            lane += [1] * t.choice([1, 2, 5, 11, 12, 14]) + [0] * t.randint(1, 2)
+        job["tape"]["opt"] = lane
     return job
 
 
+def _tag(job, res):
+    p = res["probes"]
+    if job.get("user_templates"):
+        p["user_template"] = 1
+    if job.get("user_volumes"):
+        p["user_volume"] = 1
+    if job.get("resname_clash"):
+        p["resname_clash"] = 1
+    return bool(p.get("two_or_more_templates")) or bool(res["faults"].get("optimiser_forced_fail"))
+
+
 def run_job(job):
-    return wa.run_and_tag(job, lambda j, r: True)
+    return wa.run_and_tag(job, _tag)
 
 
 reductions = jobgen.reductions
